@@ -262,6 +262,23 @@ func TestCheck(t *testing.T) {
 		}
 	}
 
+	// sets at the PAR 1.0 limit: files + volumes == 256 exactly; the highest-numbered volume is the one that is needed
+	for li, fv := range [][2]int{{200, 56}, {157, 99}, {255, 1}, {250, 6}} {
+		idx++
+		if !cfg.Mine(idx) {
+			continue
+		}
+		var files []scen.FileSpec
+		for i := 0; i < fv[0]; i++ {
+			files = append(files, scen.FileSpec{Name: fmt.Sprintf("lim%03d.bin", i), Size: 1 + (i*7)%23, Kind: "random", Seed: uint64(1000*li + i)})
+		}
+		c := scen.Case1{Files: files, NVol: fv[1], Damage: []scen.Damage{{Op: "delete", File: fv[0] / 2}}, VerifyAll: li%2 == 0}
+		for v := 1; v < fv[1]; v++ {
+			c.DelVols = append(c.DelVols, v)
+		}
+		rec.Class("files+volumes==256")
+		do(c)
+	}
 	cfg.SetRapid(cfg.N(500, 8000), 1)
 	rapid.Check(t, func(rt *rapid.T) {
 		if !do(gen(rt, 12, 10)) {
